@@ -50,7 +50,7 @@ def events(ctx):
         h = {"ver": rng.randrange(8), "type": rng.randrange(2), "shf": rng.randrange(2),
              "apid": rng.randrange(2048), "flags": rng.randrange(4), "count": rng.randrange(16384),
              "dlen": rng.randrange(65536)}
-        yield record("sph.build", {"h": h, "via": rng.choice(["ctor", "composite"])})
+        yield record("sph.build", {"h": h, "via": rng.choice(["ctor", "composite", "mutate", "setters"])})
     for _ in range(ctx.q(10000, 500000)):
         n = rng.choice([0, 1, 5, 6, 6, 6, 7, 8, 13, 20])
         yield record("sph.unpack", {"octets": [rng.randrange(256) for _ in range(n)]})
